@@ -594,12 +594,16 @@ func isSuggest(targetT base.T, sig base.Sig) bool {
 		return false
 	}
 
-	if sig.Class == targetT.DefinedClass && sig.IsStatic == targetT.IsStatic {
-		return true
-	}
+	// DefinedClass/IsStatic describe the method a value came from: for an
+	// instance (the result of K.new) that is not the receiver's own side
+	if targetT.GetType() != base.OBJECT {
+		if sig.Class == targetT.DefinedClass && sig.IsStatic == targetT.IsStatic {
+			return true
+		}
 
-	if isParentClass(sig, targetT.DefinedFrame, targetT.DefinedClass, targetT.IsStatic, false, false) {
-		return true
+		if isParentClass(sig, targetT.DefinedFrame, targetT.DefinedClass, targetT.IsStatic, false, false) {
+			return true
+		}
 	}
 
 	if isStaticTarget == sig.IsStatic && sig.Class == objectClass {
